@@ -791,6 +791,10 @@ def compare_engine(case, io, mo):
         return None
     if r[0] == "amb":
         raise core.Ambiguous()
+    if _overlap_band(case["py"], io["layout"]):
+        # two ideal intervals whose ends the doubles make EQUAL while the exact values differ (or the
+        # other way round): intervaltree then counts one overlap more or less than the exact model
+        raise core.Ambiguous()
     for alt in mo[1:]:
         # density*layerWidth inexact in doubles, or an accumulated sum of widths sitting on the
         # capacity: the model fed with the adjusted density must then agree exactly
@@ -803,6 +807,25 @@ def compare_engine(case, io, mo):
         if r2 is None or r2[0] == "amb":
             raise core.Ambiguous()
     return r[1]
+
+
+def _overlap_band(py, lay):
+    """True when, for some pair of labels, the comparison  a.idealLeft() < b.idealRight()
+    (distributor.countIdealOverlaps through intervaltree) comes out differently in doubles
+    and in exact arithmetic on the same double inputs: the two interval ends are within an
+    ulp of each other (seen in the soak: ideal 104.50000000000001 + 83/2 rounds to 146.0,
+    the other label starts at exactly 146.0)."""
+    side = effective(py)["direction"] in ("left", "right")
+    its = [(float(n["ideal"]), float(n["h"] if side else n["w"])) for n in lay["nodes"]]
+    for i, (pi, wi) in enumerate(its):
+        li_f, li_x = pi - wi / 2, Fraction(pi) - Fraction(wi) / 2
+        for j, (pj, wj) in enumerate(its):
+            if i == j:
+                continue
+            rj_f, rj_x = pj + wj / 2, Fraction(pj) + Fraction(wj) / 2
+            if (li_f < rj_f) != (li_x < rj_x) or (li_f == rj_f) != (li_x == rj_x):
+                return True
+    return False
 
 
 def layout_usable(lay):
@@ -1888,6 +1911,9 @@ def oracle_c09(case, io):
 #                     c11.py / c14lin.py / c16.py (a decision within rounding of a
 #                     tie), and the model re-run downstream of the implementation's
 #                     axis values (command 851) agrees exactly
+#   overlap-band      two ideal intervals touch within an ulp: idealPos - width/2 < other.idealPos +
+#                     other.width/2 comes out differently in doubles and exactly, so intervaltree counts
+#                     one overlap more or less (soak, thorough seed 8: 104.50000000000001 + 41.5 -> 146.0)
 #   rounding-band     the axis values agree to 1e-9, an exact solver position sits
 #                     within 1e-7 of a .5 rounding boundary, and 851 agrees exactly
 #   ideal-perturbation  as the previous but without a position in the band (a
@@ -2220,6 +2246,10 @@ def compare_pipeline(case, io, mo):
             if t.startswith("g851c"):
                 amb("capacity-band")
             amb("rounding-band" if _in_rounding_band(P) else "ideal-perturbation")
+    if isinstance(io, dict) and layout_usable(io.get("layout")) and _overlap_band(case["py"], io["layout"]):
+        # two ideal intervals whose ends coincide in doubles but not exactly (or the reverse): the
+        # overlap counts of the greedy distributor differ by one (see _overlap_band)
+        amb("overlap-band")
     return r[1]
 
 
